@@ -4,7 +4,7 @@
    Extract Constant of our own: oracles are ordinary function arguments. *)
 From Coq Require Extraction ExtrOcamlBasic.
 From Http Require Import Model.Bytes Model.Utf8 Model.Num Model.Headers Model.Request
-     Model.Chunked Model.Response Model.Coding Spec.Delivery.
+     Model.Chunked Model.Response Model.Coding Model.Inflate Spec.Delivery.
 
 Extraction Language OCaml.
 Extraction "../ocaml/model.ml"
@@ -15,4 +15,5 @@ Extraction "../ocaml/model.ml"
   chunk_init chunk_decode chunk_reserves
   resp_init resp_parse resp_generate dechunk_headers
   decode_body decode_text w1252_decode content_type_charset zlib_header
+  inflate_raw_model inflate_zlib_model gunzip_model crc32 adler32
   feed feed_trace trim lower.
